@@ -13,6 +13,7 @@
 #include <matvec/svd.h>
 #include <matvec/pinv.h>
 #include <matvec/sortvec.h>
+#include <matvec/gso.h>
 
 #include <memory>
 #include <sstream>
@@ -111,7 +112,7 @@ private:
   void op_reset0(const Step&); void op_reset(const Step&); void op_set(const Step&); void op_setall(const Step&);
   void op_scale(const Step&); void op_addsub(const Step&, bool add); void op_mul(const Step&); void op_smul(const Step&);
   void op_trans(const Step&); void op_inv(const Step&); void op_chol(const Step&); void op_svd(const Step&);
-  void op_band(const Step&); void op_conv(const Step&); void op_io(const Step&); void op_norm(const Step&); void op_sort(const Step&); void op_inplace(const Step&);
+  void op_band(const Step&); void op_conv(const Step&); void op_io(const Step&); void op_norm(const Step&); void op_sort(const Step&); void op_inplace(const Step&); void op_gso(const Step&);
 
   int usable(long long k) const     // a live, not moved-from slot, chosen modulo
   {
@@ -894,6 +895,47 @@ void ObjsEngine::op_band(const Step& st)
   }
 }
 
+// The Gram-Schmidt class of gso.h (a testing tool by its own words, and the reference of the GSO algorithm): the block
+// matrix (A1 -b; I 0) of a least-squares problem with planted rank, built from small integers.  After gso1 / gso2 the
+// defect is the planted one, the last column holds residuals r = A1*x - b and the solution x, the residuals satisfy the
+// normal equations, and x is orthogonal to the null space of A1 (minimum norm over all unknowns).
+void ObjsEngine::op_gso(const Step& st)
+{
+  int n = 1 + (int)(st.arg(0) % 6), m = n + (int)(st.arg(1) % 4), rank = 1 + (int)(st.arg(2) % n);
+  if (st.arg(2) % 3 != 0) rank = n;
+  Rng g((uint64_t)st.arg(3) * 41 + 3);
+  std::vector<double> P((size_t)m * rank), Q((size_t)rank * n);
+  for (int i = 0; i < m; i++) for (int q = 0; q < rank; q++) P[(size_t)i * rank + q] = i == q ? 1.0 : i > q ? (double)g.range(-2, 2) : 0.0;
+  for (int q = 0; q < rank; q++) for (int k = 0; k < n; k++) Q[(size_t)q * n + k] = k == q ? 1.0 : k > q ? (double)g.range(-2, 2) : 0.0;
+  std::vector<double> A1((size_t)m * n), b(m);
+  for (int i = 0; i < m; i++) { for (int k = 0; k < n; k++) { double s = 0; for (int q = 0; q < rank; q++) s += P[(size_t)i * rank + q] * Q[(size_t)q * n + k]; A1[(size_t)i * n + k] = s; } b[i] = (double)g.range(-8, 8) / 2.0; }
+  double amax = 1; for (double v : A1) amax = std::max(amax, std::fabs(v));
+  ST->state("triples", fmt("gso/Mat/%s", rank == n ? "full-rank" : "rank-deficient"));
+  RMat A(m + n, n + 1);
+  for (int i = 1; i <= m; i++) { for (int k = 1; k <= n; k++) A(i, k) = A1[(size_t)(i - 1) * n + k - 1]; A(i, n + 1) = -b[i - 1]; }
+  for (int i = 1; i <= n; i++) for (int k = 1; k <= n + 1; k++) A(m + i, k) = i == k ? 1 : 0;
+  int defect = 0, nd = 0;
+  try {
+    GNU_gama::GSO<double, int, matvec> gso(A, m, n);
+    gso.min_x(); gso.gso1(); gso.gso2();
+    defect = gso.defect(); for (int k = 1; k <= n; k++) if (gso.lindep(k)) nd++;
+  } catch (const matvec& e) { throw Fail{"C15:algebra:GSO", fmt("exception %d for a %d x %d matrix of rank %d", e.error(), m, n, rank)}; }
+  if (defect != n - rank || nd != n - rank) throw Fail{"C15:algebra:GSO", fmt("%d x %d matrix of planted rank %d: defect %d, %d columns flagged as dependent", m, n, rank, defect, nd)};
+  std::vector<double> x(n), r(m); for (int k = 1; k <= n; k++) x[k - 1] = A(m + k, n + 1); for (int i = 1; i <= m; i++) r[i - 1] = A(i, n + 1);
+  double xmax = 1; for (double v : x) xmax = std::max(xmax, std::fabs(v));
+  double tol = 1e-8 * amax * amax * xmax * (m + n);
+  for (int i = 0; i < m; i++) { double sres = -b[i]; for (int k = 0; k < n; k++) sres += A1[(size_t)i * n + k] * x[k]; if (!(std::fabs(sres - r[i]) <= tol)) throw Fail{"C15:algebra:GSO", fmt("residual %d is %s, A1*x - b gives %s", i + 1, hexfloat(r[i]).c_str(), hexfloat(sres).c_str())}; }
+  for (int k = 0; k < n; k++) { double sn = 0; for (int i = 0; i < m; i++) sn += A1[(size_t)i * n + k] * r[i]; if (!(std::fabs(sn) <= tol)) throw Fail{"C15:algebra:GSO", fmt("normal equation %d is not satisfied: trans(A1)*r = %s", k + 1, hexfloat(sn).c_str())}; }
+  // null space of A1 = null space of Q = (U | R), U unit upper triangular: v_k = (-inv(U)*R*e_k ; e_k)
+  for (int k = rank; k < n; k++) {
+    std::vector<long double> v(n, 0); v[k] = 1;
+    for (int q = rank - 1; q >= 0; q--) { long double sq = Q[(size_t)q * n + k]; for (int c = q + 1; c < rank; c++) sq += Q[(size_t)q * n + c] * v[c]; v[q] = -sq; }
+    long double dot = 0, vmax = 1; for (int c = 0; c < n; c++) { dot += v[c] * x[c]; vmax = std::max(vmax, fabsl(v[c])); }
+    if (!(fabsl(dot) <= tol * vmax)) throw Fail{"C15:algebra:GSO", fmt("the solution is not of minimum norm: its product with null vector %d is %s", k - rank + 1, hexfloat((double)dot).c_str())};
+  }
+  L->line("  gso m=%d n=%d rank=%d x1=%s", m, n, rank, hexfloat(x[0]).c_str());
+}
+
 void ObjsEngine::op_svd(const Step& st)
 {
   // a fresh m x n matrix (m >= n) of planted rank built from small integers, so that rank is numerically unambiguous
@@ -1065,7 +1107,7 @@ void ObjsEngine::step(const Step& st, int idx)
   else if (o == "scale") op_scale(st); else if (o == "add") op_addsub(st, true); else if (o == "sub") op_addsub(st, false);
   else if (o == "mul") op_mul(st); else if (o == "smul") op_smul(st); else if (o == "trans") op_trans(st); else if (o == "inv") op_inv(st);
   else if (o == "chol") op_chol(st); else if (o == "band") op_band(st); else if (o == "svd") op_svd(st); else if (o == "conv") op_conv(st); else if (o == "io") op_io(st);
-  else if (o == "norm") op_norm(st); else if (o == "sort") op_sort(st);
+  else if (o == "norm") op_norm(st); else if (o == "sort") op_sort(st); else if (o == "gso") op_gso(st);
 }
 
 Verdict ObjsEngine::execute(const Plan& plan, EventLog& log, Stats& st)
@@ -1110,7 +1152,7 @@ Plan ObjsEngine::generate(uint64_t seed, uint64_t, const std::string&)
   struct K { const char* op; int nargs; int w; };
   std::vector<K> kinds = {{"new", 6, 6}, {"del", 1, 1}, {"cctor", 2, 4}, {"casg", 2, 6}, {"mctor", 2, 3}, {"masg", 2, 4}, {"reset0", 1, 2}, {"reset", 6, 5},
                           {"set", 4, 3}, {"setall", 3, 2}, {"scale", 3, 2}, {"add", 6, 4}, {"sub", 6, 3}, {"mul", 6, 6}, {"smul", 5, 2}, {"trans", 4, 3},
-                          {"inv", 4, 2}, {"chol", 5, 2}, {"band", 5, 2}, {"svd", 5, 1}, {"conv", 4, 2}, {"io", 3, 2}, {"norm", 1, 1}, {"sort", 1, 1}};
+                          {"inv", 4, 2}, {"chol", 5, 2}, {"band", 5, 2}, {"svd", 5, 1}, {"conv", 4, 2}, {"io", 3, 2}, {"norm", 1, 1}, {"sort", 1, 1}, {"gso", 5, 1}};
   std::vector<K> on;
   for (auto& k : kinds) if (std::string(k.op) == "new" || g.chance(3, 4)) { K c = k; c.w = 1 + (int)g.below(2 * k.w); on.push_back(c); }
   int tw = 0; for (auto& k : on) tw += k.w;
